@@ -13,10 +13,9 @@
              a successful UPDATE bumps the in-memory `task.version`, an INSERT does not.
   * transactional variant: any ConcurrencyError rolls the whole transaction back and restores the in-memory versions
     (`rollback_versions`).
-  * auto-commit variant: a ConcurrencyError is raised WITHOUT rollback.  When the stage UPDATE matched nothing the open
-    transaction is empty.  When the stage UPDATE succeeded and a later task fails, the stage UPDATE and the earlier task
-    writes stay pending on the connection and become durable with that connection's next commit; the model applies them
-    at once and reports `conflictPartial` (the harness commits the dangling transaction to realise exactly this).
+  * auto-commit variant (as repaired, F33): `conn.rollback()` before every ConcurrencyError — after a missed stage CAS
+    (empty transaction) and after a failed `upsert_task` (undoing the stage UPDATE and the task rows written so far) —
+    and the in-memory versions are restored.  So both variants are all-or-nothing; they differ only in who commits.
 
   The stage-level content the UPDATE writes is abstracted to `status` and a `payload` list (context/outputs);
   a modification appends one entry and may set the status.  A client is an in-memory StageExecution object:
@@ -87,7 +86,7 @@ inductive Op where
   deriving DecidableEq, Repr
 
 inductive Out where
-  | ok | conflict | conflictPartial | noobj
+  | ok | conflict | noobj
   deriving DecidableEq, Repr
 
 def applyC (c : Content) (m : Mod) : Content :=
@@ -153,10 +152,7 @@ def writeOp (s : State) (c : Nat) (txn : Bool) (phase : Option Nat) : State × O
             db := { version := s.db.version + 1, content := o.cur, tasks := rows }
             log := s.log ++ o.pend
             commits := s.commits ++ [(c, o.version)] }, .ok)
-      else if txn then (s, .conflict)
-      else
-        ({ (setObj s c { o with version := o.version + 1, tasks := mem }) with
-            db := { version := s.db.version + 1, content := o.cur, tasks := rows } }, .conflictPartial)
+      else (s, .conflict)      -- a task CAS failed: everything is rolled back (both variants), versions restored
     else (s, .conflict)
 
 def reapply (s : State) (c : Nat) : List Mod → State
@@ -182,11 +178,6 @@ def step (s : State) : Op → State × Out
 def next (s : State) (op : Op) : State := (step s op).1
 
 def run (s : State) (ops : List Op) : State := ops.foldl next s
-
-/-- no write of the run ended in the auto-commit variant's half-applied state -/
-def noPartial (s : State) : List Op → Bool
-  | [] => true
-  | op :: rest => (step s op).2 != .conflictPartial && noPartial (next s op) rest
 
 def isBump : Op → Bool
   | .bump _ => true
@@ -221,7 +212,7 @@ def parseOp (s : String) : Option Op :=
   | _ => none
 
 def Out.show : Out → String
-  | .ok => "ok" | .conflict => "conflict" | .conflictPartial => "conflict-partial" | .noobj => "noobj"
+  | .ok => "ok" | .conflict => "conflict" | .noobj => "noobj"
 
 def showDb (d : Db) : String :=
   s!"{d.version}.{d.content.status}.{Parse.showNats d.content.payload}#" ++
